@@ -4,20 +4,17 @@ HERE = os.path.dirname(os.path.dirname(os.path.abspath(__file__)))
 props = [json.loads(l) for l in open(os.path.join(HERE, "properties.jsonl"))]
 ids = [p["id"] for p in props]
 
-CLAIMED = {
- "C11": dict(
-   category="proof",
-   text="Coq theorems C11_fasthash64/32/murmur3: the branch-for-branch transcription of hashes.py (over constants re-read "
-        "from the source on every run) equals an independently written reference of FastHash and MurmurHash3_x86_32 for "
-        "every byte string and every in-range seed; tied to the code by evaluating transcription and reference inside Coq "
-        "on the same inputs as the Numba functions (all lengths 0..257, boundary seeds) plus a pure-Python third reference "
-        "and a second interpreter.",
-   design_ref="DESIGN.md section 6, C11",
-   note="Trusted: Coq kernel + vm_compute; translator for the constants; the hand transcription Hashes.v (validated by the "
-        "correspondence run); my reading of the published algorithms (HashSpec.v, cross-checked with the repo's 22 C++ vectors); "
-        "Numba's uint wrap semantics. Theorems closed under the global context (no axioms).",
-   technique="Coq proof (transcription = reference spec, all inputs) + vm_compute correspondence against the Numba code"),
-}
+import importlib, sys
+sys.path.insert(0, os.path.join(HERE, "harness"))
+CLAIMED = {}
+NOT_CLAIMED_REASON = {}
+for i in ids:
+    if os.path.exists(os.path.join(HERE, "harness", "checks", i + ".py")):
+        mod = importlib.import_module("checks." + i)
+        if getattr(mod, "MANIFEST", None):
+            CLAIMED[i] = mod.MANIFEST
+        elif getattr(mod, "NOT_CLAIMED", None):
+            NOT_CLAIMED_REASON[i] = mod.NOT_CLAIMED
 
 checks = []
 for i in ids:
@@ -34,7 +31,7 @@ for i in ids:
             "level_note": c["note"],
             "technique": c["technique"],
         })
-na = [{"property_id": i, "reason": "check not built yet in this round (planned: Coq model + theorems, DESIGN.md section 6); not claimed until its check passes on the unchanged tree"}
+na = [{"property_id": i, "reason": NOT_CLAIMED_REASON.get(i, "check not built yet in this round (planned: Coq model + theorems, DESIGN.md section 6); not claimed until its check passes on the unchanged tree")}
       for i in ids if i not in CLAIMED]
 m = {
  "version": 1,
